@@ -71,6 +71,9 @@ if os.path.exists(ma):
         k += any(c.values())
         L.append(f"| {r['name']} | {r.get('file')} | {edit} | {', '.join(p for p, v in c.items() if v) or '—'} | {', '.join(p for p, v in c.items() if not v) or '—'} |")
     L.append(f"\n{k} of {n} applied mutants caught by at least one of the checks run on them.\n")
+mn = os.path.join(root, "seeded", "mutant_notes.md")
+if os.path.exists(mn):
+    L.append(open(mn).read())
 text = "\n".join(L) + "\n"
 p = os.path.join(root, "DESIGN.md")
 s = open(p).read()
